@@ -13,6 +13,7 @@ import MosaikModel.Connect
 import MosaikModel.Closure
 import MosaikModel.Sched
 import MosaikModel.Deliver
+import MosaikModel.WF
 namespace Mosaik.Driver
 open Mosaik
 
@@ -333,6 +334,9 @@ def handle (ss : Session) : P (Session × String) := do
     match deliver ss.cfg ss.st a with
     | none => pure (ss, "not-enabled")
     | some st => pure (report { ss with st := st })
+  | "wf" => do
+    -- are the hypotheses of the scheduler theorems met by the configuration of the current run?
+    pure (ss, if ss.cfg.wfB then "wf" else if ss.cfg.rt.isSome then "rt" else "not-wf")
   | "state" => do
     -- debugging aid: control state of one simulator
     let p ← nat
